@@ -55,7 +55,7 @@ def check_tag(tag, name, spec, mem):
         return "ok" if V.same_elements(spec[1], tag.value, mem, spec[2], spec[3]) else "value"
     if kind == "intbit":
         n = V.ATOMIC_SIZE[spec[1]]
-        word = R.from_le(mem[spec[2]:spec[2] + n])
+        word = R.from_le(mem[spec[2]:spec[2] + n], spec[1] in V.SIGNED)   # same (signed) shape as the decoded value; floor division = arithmetic shift
         return "ok" if tag.value == ((word // (1 << spec[3])) % 2 == 1) and isinstance(tag.value, bool) else "value"
     if kind == "bools":
         off, start, n = spec[1], spec[2], spec[3]
